@@ -9,18 +9,24 @@ for d in sorted(glob.glob(f"{V}/seeded/*/meta.json")):
     caught = [k for k, v in det.items() if v["result"] == "caught"]
     missed = [k for k, v in det.items() if v["result"] != "caught"]
     ver = m.get("verified") or {}
-    rows.append((m["id"], m["breaks_property"], m.get("needs_to_manifest", ""), caught, missed, m.get("scope_note", ""), ver.get("ok")))
+    own = det.get(m["breaks_property"], {}).get("result", "not run")
+    note = m.get("scope_note", "")
+    if m.get("rebased"):
+        note = (note + " " if note else "") + m["rebased"]
+    rows.append((m["id"], m["breaks_property"], m.get("needs_to_manifest", ""), caught, missed, note, ver.get("ok"), m.get("round", ""), own))
 with open(f"{V}/seeded/RESULTS.md", "w") as f:
     f.write("# Seeded changes written by independent sub-agents\n\n"
             "Each sub-agent got only the text of one property and a scratch worktree of /repo. A change is kept here only after\n"
             "it was confirmed in a scratch worktree (`tools/seeded.py verify`): the crate's 61 tests pass with it, its demonstration\n"
             "fails with it and passes without it. `caught by` lists the quick checks that exit 1 with a VIOLATION line when the\n"
-            "patch is applied to /repo (`tools/seeded.py run`).\n\n"
-            "| id | target | what it needs to manifest | confirmed | caught by (quick tier) | not caught by | note |\n|---|---|---|---|---|---|---|\n")
+            "patch is applied to /repo (`tools/seeded.py run`). The check of the targeted property is run at full quick scale;\n"
+            "the other columns come from the cross-property matrix (`tools/matrix.sh`), which runs the world-engine checks at a\n"
+            "quarter of the quick budget, so `not caught by` in those columns means `not within 200 000 cases`.\n\n"
+            "| id | round | target | what it needs to manifest | confirmed | target check | caught by | not caught by | note |\n|---|---|---|---|---|---|---|---|---|\n")
     for r in rows:
-        f.write(f"| {r[0]} | {r[1]} | {r[2]} | {'yes' if r[6] else 'NO'} | {', '.join(r[3]) or '-'} | {', '.join(r[4]) or '-'} | {r[5]} |\n")
-    n = len(rows); c = sum(1 for r in rows if r[3])
-    f.write(f"\n{c} of {n} changes are caught by at least one check.\n")
+        f.write(f"| {r[0]} | {r[7]} | {r[1]} | {r[2]} | {'yes' if r[6] else 'NO'} | {r[8]} | {', '.join(r[3]) or '-'} | {', '.join(r[4]) or '-'} | {r[5]} |\n")
+    n = len(rows); c = sum(1 for r in rows if r[3]); t = sum(1 for r in rows if r[8] == "caught")
+    f.write(f"\n{t} of {n} changes are caught by the check of the property they target; {c} of {n} by at least one check.\n")
 try:
     res = json.load(open(f"{V}/mutants/last_results.json"))
     specs = {m["id"]: m for m in json.load(open(f"{V}/mutants/mutants.json"))}
